@@ -97,6 +97,14 @@ namespace c15
             free(src);
             return 0;
         }
+        bool newdata_sz(const std::string &d, size_t sz) override
+        {
+            char *src = (char *)malloc(d.size() ? d.size() : 1);
+            memcpy(src, d.data(), d.size());
+            s.newdata(src, sz);
+            free(src);
+            return true;
+        }
         bool clear() override { s.clear(); return true; }
         bool set_size_cursor(unsigned len, unsigned cur) override { s.set_size_and_cursor(len, cur); return true; }
         int backspace(unsigned n) override { return s.backspace((int)n); }
